@@ -624,17 +624,19 @@ class ProvRDFSerializer(Serializer):
                 pred_new = pred
                 if pred in predicate_mapper:
                     pred_new = predicate_mapper[pred]
-                if ids[id] == PROV_COMMUNICATION and "activity" in str(pred_new):
+                # (only the PROV predicates themselves are renamed, not any
+                # attribute whose name happens to contain these words)
+                if ids[id] == PROV_COMMUNICATION and _is_prov(pred_new, "activity"):
                     pred_new = PROV_ATTR_INFORMANT
-                if ids[id] == PROV_DELEGATION and "agent" in str(pred_new):
+                if ids[id] == PROV_DELEGATION and _is_prov(pred_new, "agent"):
                     pred_new = PROV_ATTR_RESPONSIBLE
-                if ids[id] in [PROV_END, PROV_START] and "entity" in str(pred_new):
+                if ids[id] in [PROV_END, PROV_START] and _is_prov(pred_new, "entity"):
                     pred_new = PROV_ATTR_TRIGGER
-                if ids[id] in [PROV_END] and "activity" in str(pred_new):
+                if ids[id] in [PROV_END] and _is_prov(pred_new, "activity"):
                     pred_new = PROV_ATTR_ENDER
-                if ids[id] in [PROV_START] and "activity" in str(pred_new):
+                if ids[id] in [PROV_START] and _is_prov(pred_new, "activity"):
                     pred_new = PROV_ATTR_STARTER
-                if ids[id] == PROV_DERIVATION and "entity" in str(pred_new):
+                if ids[id] == PROV_DERIVATION and _is_prov(pred_new, "entity"):
                     pred_new = PROV_ATTR_USED_ENTITY
                 if str(pred_new) in [val.uri for val in formal_attributes[id]]:
                     qname_key = self.valid_identifier(pred_new)
@@ -674,6 +676,12 @@ class ProvRDFSerializer(Serializer):
         for key, val in other_attributes.items():
             if val:
                 ids[key].add_attributes(val)
+
+
+def _is_prov(pred, localpart):
+    """True if pred (a URIRef or a QualifiedName) is the PROV term prov:<localpart>."""
+    uri = pred.uri if isinstance(pred, pm.Identifier) else str(pred)
+    return uri == PROV[localpart].uri
 
 
 def walk(children, level=0, path=None, usename=True):
